@@ -47,11 +47,19 @@ def strat_fft(tier):
     return st.fixed_dictionaries({
         'shape': st.one_of(st.tuples(ax, ax).map(list), ax.map(lambda k: [k, k]), ax.map(lambda k: [1, k]), ax.map(lambda k: [k, 1])),
         'Q': st.one_of(st.integers(1, 4), st.sampled_from([1, 2, 1.5, 1.25, 3]), U.nice_float(1, 3).map(lambda v: round(v, 2))),
-        'kind': U.field_kinds, 'via': st.sampled_from(['function', 'wavefront']), 'layout': U.layouts, 'seed': U.seeds, 'mag': MAG})
+        'kind': U.field_kinds, 'via': st.sampled_from(['function', 'wavefront']), 'layout': U.layouts, 'seed': U.seeds, 'mag': MAG, 'fftbackend': U.fft_backends})
 
 
 def check_fft(case, ctx):
     """focus/unfocus are unitary and mutually inverse; zero padding adds no energy."""
+    be = case.get('fftbackend', 'scipy')
+    if be != 'scipy':
+        ctx.label('fft-backend:' + be)
+    with U.fft_backend(be):
+        _check_fft_inner(case, ctx)
+
+
+def _check_fft_inner(case, ctx):
     from prysm import propagation as P
     from prysm.fttools import pad2d
     shape, Q = case['shape'], case['Q']
@@ -110,7 +118,14 @@ def strat_pairs(tier):
         'shape': st.one_of(st.tuples(ax, ax).map(list), ax.map(lambda k: [k, k])),
         'extra': st.tuples(extra(), extra()).map(list),       # k = n + extra  (per axis)
         'kind': U.field_kinds, 'method': st.sampled_from(['mdft', 'czt']), 'order': st.sampled_from(['fwd-inv', 'inv-fwd']),
-        'prec': st.sampled_from([64, 64, 64, 32]), 'seed': U.seeds, 'mag': MAG,
+        'prec': st.sampled_from([64, 64, 64, 32]), 'seed': U.seeds, 'mag': MAG, 'fftbackend': U.fft_backends,
+        # what the shared executor did before the checked pair: nothing (cleared), the same geometry with another shift, or 40 other geometries
+        # interleaved with the forward leg of this one (bounded caches: the geometry is hit again and again while others come and go)
+        'hist': st.sampled_from(['none', 'none', 'none', 'other-shift', 'interleaved-many']),
+        # the pair through the executors, or through focus_fixed_sampling / unfocus_fixed_sampling (functions or Wavefront methods) with physical
+        # spacings chosen so that the focal grid is the full band (square geometry: one dx per plane)
+        'via': st.sampled_from(['executor', 'executor', 'executor', 'function', 'wavefront']),
+        'phys': st.fixed_dictionaries({'dx': st.sampled_from([0.1, 0.37, 1.0, 2.5]), 'wvl': st.sampled_from([0.5, 0.6328, 1.55]), 'efl': st.sampled_from([10.0, 100.0, 1234.5])}),
         # the same output shift (x, y) handed to both legs: the pair stays mutually inverse (the executors shift the coordinates of both planes)
         'shift': st.one_of(st.just([0, 0]), st.just([0, 0]), st.tuples(_sh(), _sh()).map(list)),
         # per axis: -1 = keep the drawn (n, extra), otherwise an index into INEXACT (small sizes first in the quick tier)
@@ -120,6 +135,14 @@ def strat_pairs(tier):
 
 def check_pairs(case, ctx):
     """a transform onto the full Nyquist band (n*Q samples) followed by the inverse with Q=1 returns the field; energy conserved."""
+    be = case.get('fftbackend', 'scipy')
+    if be != 'scipy':
+        ctx.label('fft-backend:' + be)
+    with U.fft_backend(be):
+        _check_pairs_inner(case, ctx)
+
+
+def _check_pairs_inner(case, ctx):
     from prysm.fttools import mdft, czt
     _reset()
     shape, extra, method, prec = list(case['shape']), list(case['extra']), case['method'], case['prec']
@@ -127,6 +150,8 @@ def check_pairs(case, ctx):
         if idx >= 0:
             shape[ax_], extra[ax_] = INEXACT[idx][0], INEXACT[idx][1] - INEXACT[idx][0]
             ctx.label('n*(k/n)!=k')
+    if case.get('via', 'executor') != 'executor':
+        shape[1], extra[1] = shape[0], extra[0]         # one spacing per plane: square pupil, square band
     k = (shape[0] + extra[0], shape[1] + extra[1])
     Q = (k[0] / shape[0], k[1] / shape[1])
     mag, maglabel = _mag(case, prec)
@@ -140,6 +165,31 @@ def check_pairs(case, ctx):
     fwd, inv = (ex.dft2, ex.idft2) if method == 'mdft' else (ex.czt2, ex.iczt2)
     if case['order'] == 'inv-fwd':
         fwd, inv = inv, fwd
+    via = case.get('via', 'executor')
+    if via != 'executor':
+        from prysm import propagation as P
+        ctx.label('via:' + via)
+        ph = case['phys']
+        n_, k_ = shape[0], k[0]
+        dxa = ph['dx']                                       # spacing of the plane we start in
+        dxb = ph['wvl'] * ph['efl'] / (n_ * dxa * (k_ / n_))  # spacing of the full-band plane: Q = k/n exactly
+        first_is_focus = case['order'] != 'inv-fwd'
+
+        def fwd(a, Q_, out_, s_=(0, 0)):      # noqa - same call shape as the executors, shift in samples of the output plane
+            o = (int(out_[0]), int(out_[1]))
+            su = (s_[0] * dxb, s_[1] * dxb)
+            if via == 'function':
+                return ctx.call(P.focus_fixed_sampling if first_is_focus else P.unfocus_fixed_sampling, a, dxa, ph['efl'], ph['wvl'], dxb, o, shift=su, method=method)
+            w = P.Wavefront(a, ph['wvl'], dxa, space='pupil' if first_is_focus else 'psf')
+            return (w.focus_fixed_sampling if first_is_focus else w.unfocus_fixed_sampling)(ph['efl'], dxb, o, shift=su, method=method).data
+
+        def inv(a, Q_, out_, s_=(0, 0)):      # noqa
+            o = (int(out_[0]), int(out_[1]))
+            su = (s_[0] * dxa, s_[1] * dxa)
+            if via == 'function':
+                return ctx.call(P.unfocus_fixed_sampling if first_is_focus else P.focus_fixed_sampling, a, dxb, ph['efl'], ph['wvl'], dxa, o, shift=su, method=method)
+            w = P.Wavefront(a, ph['wvl'], dxb, space='psf' if first_is_focus else 'pupil')
+            return (w.unfocus_fixed_sampling if first_is_focus else w.focus_fixed_sampling)(ph['efl'], dxa, o, shift=su, method=method).data
     tol = 1e-9 if prec == 64 else 2e-3
     E = _energy(f)
     bucket = '%s-pair' % method
@@ -154,7 +204,21 @@ def check_pairs(case, ctx):
         ctx.label('shifted', 'one-axis-shift' if (sh[0] == 0) != (sh[1] == 0) else 'both-axes-shift')
         bucket += ':shifted'
         ctx.nt(True)
+    hist = case.get('hist', 'none')
+    if hist != 'none':
+        ctx.label('history:' + hist)
     with U.precision(prec):
+        if hist == 'other-shift':
+            osh = (0, 0) if shifted else (-1, 0.5)
+            ctx.call(inv, np.asarray(ctx.call(fwd, f, Q, k, osh)), 1, tuple(shape), osh)
+        elif hist == 'interleaved-many':
+            tiny = np.ones((2, 3), dtype=complex)
+            for i in range(40):
+                ctx.call(fwd, tiny, 1 + i / 64, (3, 2))
+                ctx.call(inv, tiny, 1 + i / 64, (3, 2))
+                Fi = ctx.call(fwd, f, Q, k, sh)
+                if i % 8 == 7:
+                    ctx.call(inv, np.asarray(Fi), 1, tuple(shape), sh)
         F = ctx.call(fwd, f, Q, k, sh) if shifted else ctx.call(fwd, f, Q, k)
         U.check_shape(F, k, bucket)
         ctx.require(abs(_energy(F) - E) <= 10 * tol * max(E, 1e-300), bucket + ':energy',
